@@ -98,6 +98,11 @@ func (self *Interpreter) letStatement(node ast.AnalyzedLetStatement) *value.Inte
 func (self *Interpreter) loopStatement(node ast.AnalyzedLoopStatement) *value.Interrupt {
 loop:
 	for {
+		// An iteration whose body evaluates nothing would otherwise never notice a cancelation.
+		if i := self.checkCancelation(node.Range); i != nil {
+			return i
+		}
+
 		_, i := self.block(node.Body, true)
 		if i != nil {
 			switch (*i).Kind() {
@@ -164,6 +169,11 @@ loop:
 		currIterVar, shouldContinue := iterator()
 		if !shouldContinue {
 			break
+		}
+
+		// An iteration whose body evaluates nothing would otherwise never notice a cancelation.
+		if i := self.checkCancelation(node.Range); i != nil {
+			return i
 		}
 
 		// clear current scope
